@@ -54,69 +54,60 @@ macro_rules! write {
 //@fn crates/anstyle-wincon/src/ansi.rs write_colored
 //@end
 
-const MAXW: usize = 6;
+const MAXW: usize = 5;
+const HEAD: usize = 8;
 
-/// scripted writer: records every call (slice address, length, first bytes — copied at fixed
-/// positions, no symbolic-index writes); one concrete call fails; the data write accepts any prefix
+/// scripted writer: records every call (kind, slice address, length, first bytes — copied at
+/// fixed positions); one call may fail; the data write accepts any prefix
 struct W {
     calls: usize,
+    /// true: the call was a `write_all` (a code), false: a plain `write` (the data)
+    all: [bool; MAXW],
     ptr: [usize; MAXW],
     len: [usize; MAXW],
-    head: [[u8; 8]; MAXW],
+    head: [[u8; HEAD]; MAXW],
     fail_at: usize,
-    data_ptr: usize,
-    data_call: usize,
     data_taken: usize,
 }
 
-impl std::io::Write for W {
-    fn write(&mut self, buf: &[u8]) -> std::io::Result<usize> {
+impl W {
+    fn record(&mut self, all: bool, buf: &[u8]) -> usize {
         let i = self.calls;
         self.calls += 1;
         if i < MAXW {
+            self.all[i] = all;
             self.ptr[i] = buf.as_ptr() as usize;
             self.len[i] = buf.len();
             let mut k = 0;
-            while k < 8 {
+            while k < HEAD {
                 if k < buf.len() {
                     self.head[i][k] = buf[k];
                 }
                 k += 1;
             }
         }
+        i
+    }
+}
+
+impl std::io::Write for W {
+    fn write(&mut self, buf: &[u8]) -> std::io::Result<usize> {
+        let i = self.record(false, buf);
         if i == self.fail_at {
             return Err(ErrorKind::Other.into());
         }
-        if buf.as_ptr() as usize == self.data_ptr {
-            let take = vk::any_usize_in(0, buf.len());
-            self.data_call = i;
-            self.data_taken = take;
-            return Ok(take);
-        }
-        Ok(buf.len())
+        let take = vk::any_usize_in(0, buf.len());
+        self.data_taken = take;
+        Ok(take)
     }
-    fn flush(&mut self) -> std::io::Result<()> {
+    /// a writer's `write_all` either takes everything or fails (std's default loop over `write`
+    /// is not part of what is verified here)
+    fn write_all(&mut self, buf: &[u8]) -> std::io::Result<()> {
+        let i = self.record(true, buf);
+        if i == self.fail_at {
+            return Err(ErrorKind::Other.into());
+        }
         Ok(())
-    }
-}
-
-/// what anstyle renders for a colour code / the reset (their meaning is verified in C05)
-struct Exp {
-    b: [u8; 8],
-    len: usize,
-}
-
-impl std::io::Write for Exp {
-    fn write(&mut self, buf: &[u8]) -> std::io::Result<usize> {
-        let mut k = 0;
-        while k < 8 {
-            if k < buf.len() && self.len < 8 {
-                self.b[self.len] = buf[k];
-                self.len += 1;
-            }
-            k += 1;
-        }
-        Ok(buf.len())
     }
     fn flush(&mut self) -> std::io::Result<()> {
         Ok(())
@@ -127,90 +118,135 @@ fn opt_color(i: u8) -> Option<anstyle::AnsiColor> {
     if i < 16 { Some(ansi_from_index(i)) } else { None }
 }
 
-fn call_is(w: &W, i: usize, e: &Exp) -> bool {
-    if i >= w.calls || w.len[i] != e.len {
-        return false;
+/// S4 reading of recorded call `i` applied to `from`: pure SGR and fully within the standards
+fn interpret(w: &W, i: usize, from: MStyle) -> Option<MStyle> {
+    if i >= MAXW || w.len[i] > HEAD {
+        return None;
     }
-    let mut k = 0;
-    while k < 8 {
-        if k < e.len && w.head[i][k] != e.b[k] {
-            return false;
-        }
-        k += 1;
+    match sgr_bytes(from, &w.head[i], w.len[i], false) {
+        Pure::Ok(s) => Some(s),
+        _ => None,
     }
-    true
 }
 
-/// one concrete colour pair and failure point; data of 1-2 symbolic bytes; any prefix of the data accepted
-fn colored(fgi: u8, bgi: u8, _via_trait: bool, fail_at: usize) {
+/// colour pair `fgi`, `bgi` (16 = not given), inner call `fail_at` fails (>= 4: none);
+/// data of 1-2 symbolic bytes; any prefix of the data accepted
+fn colored(fgi: u8, bgi: u8, fail_at: usize) -> u8 {
     let data_buf = [vk::any_u8(), vk::any_u8()];
     let dlen = vk::any_usize_in(1, 2);
     let data = &data_buf[..dlen];
-    let mut w = W { calls: 0, ptr: [0; MAXW], len: [0; MAXW], head: [[0; 8]; MAXW], fail_at, data_ptr: data.as_ptr() as usize, data_call: 99, data_taken: 0 };
+    let mut w = W { calls: 0, all: [false; MAXW], ptr: [0; MAXW], len: [0; MAXW], head: [[0; HEAD]; MAXW], fail_at, data_taken: 0 };
     let r = write_colored(&mut w, opt_color(fgi), opt_color(bgi), data);
     let styled = fgi < 16 || bgi < 16;
-    // expected call sequence
-    let mut want = 0usize;
-    if fail_at >= want && fgi < 16 {
-        let mut e = Exp { b: [0; 8], len: 0 };
-        let _ = anstyle::Style::new().fg_color(Some(ansi_from_index(fgi).into())).write_to(&mut e);
-        assert!(call_is(&w, want, &e), "the foreground code comes first");
+    let ncodes = (if fgi < 16 { 1 } else { 0 }) + (if bgi < 16 { 1 } else { 0 });
+    let total = if styled { ncodes + 2 } else { 1 };
+    // the calls made, in order, up to and including the failing one
+    let made = if fail_at < total { fail_at + 1 } else { total };
+    assert!(w.calls == made, "a coloured write makes the foreground code, the background code, one data write and one reset, in this order, and stops at the first inner error");
+    // what the terminal shows after each code that was written
+    let mut shown = M_DEFAULT;
+    let mut i = 0;
+    if fgi < 16 && i < made {
+        assert!(w.all[i], "codes are written completely (write_all)");
+        match interpret(&w, i, shown) {
+            Some(s) => {
+                assert!(s.fg == MColor::Ansi(fgi) && s.bg == shown.bg && s.ul == shown.ul && s.eff == shown.eff, "the foreground code selects exactly the requested foreground colour");
+                shown = s;
+            }
+            None => assert!(false, "the foreground code is a standard SGR sequence"),
+        }
     }
-    if fgi < 16 { want += 1; }
-    if fail_at >= want && bgi < 16 && (fail_at >= want) && w.calls > want {
-        let mut e = Exp { b: [0; 8], len: 0 };
-        let _ = anstyle::Style::new().bg_color(Some(ansi_from_index(bgi).into())).write_to(&mut e);
-        assert!(call_is(&w, want, &e), "the background code follows the foreground code");
+    if fgi < 16 { i += 1; }
+    if bgi < 16 && i < made {
+        assert!(w.all[i], "codes are written completely (write_all)");
+        match interpret(&w, i, shown) {
+            Some(s) => {
+                assert!(s.bg == MColor::Ansi(bgi) && s.fg == shown.fg && s.ul == shown.ul && s.eff == shown.eff, "the background code selects exactly the requested background colour");
+                shown = s;
+            }
+            None => assert!(false, "the background code is a standard SGR sequence"),
+        }
     }
-    if bgi < 16 { want += 1; }
-    let data_idx = want;
+    if bgi < 16 { i += 1; }
+    if i < made {
+        // the data: one plain write of the caller's slice, after the codes
+        assert!(!w.all[i] && w.ptr[i] == data.as_ptr() as usize && w.len[i] == dlen, "the data bytes are handed over unchanged, in one write, right after the codes (no code at all when neither colour is given)");
+        assert!(shown.fg == (if fgi < 16 { MColor::Ansi(fgi) } else { MColor::Default }) && shown.bg == (if bgi < 16 { MColor::Ansi(bgi) } else { MColor::Default }) && shown.eff == 0 && shown.ul == MColor::Default,
+            "the data is shown in exactly the requested colours");
+    }
+    i += 1;
+    if styled && i < made {
+        assert!(w.all[i], "codes are written completely (write_all)");
+        match interpret(&w, i, shown) {
+            Some(s) => assert!(s == M_DEFAULT, "the data is followed by a reset that restores the default state"),
+            None => assert!(false, "the reset is a standard SGR sequence"),
+        }
+    }
     match &r {
         Ok(n) => {
-            assert!(fail_at >= w.calls, "a coloured write succeeds only if no inner write failed");
-            assert!(w.data_call == data_idx && w.ptr[data_idx] == data.as_ptr() as usize && w.len[data_idx] == dlen, "the data bytes are handed over unchanged, in one write, right after the codes (no code at all when neither colour is given)");
+            assert!(fail_at >= total, "a coloured write succeeds only if no inner write failed");
             assert!(*n == w.data_taken, "a coloured write returns the number of data bytes the writer accepted");
-            if styled {
-                let mut e = Exp { b: [0; 8], len: 0 };
-                let _ = anstyle::Style::new().bold().write_reset_to(&mut e);
-                assert!(w.calls == data_idx + 2 && call_is(&w, data_idx + 1, &e), "the data is followed by exactly one reset when a colour was given");
-            } else {
-                assert!(w.calls == 1, "nothing but the data is written when neither colour is given");
-            }
         }
         Err(e) => {
-            assert!(e.kind() == ErrorKind::Other && fail_at < w.calls && w.calls == fail_at + 1, "an inner error is returned with its kind and nothing is written after it");
+            assert!(e.kind() == ErrorKind::Other && fail_at < total, "an inner error is returned with its kind");
         }
     }
-    if fail_at < w.calls {
+    if fail_at < total {
         assert!(r.is_err(), "an inner error is never turned into success");
     }
-    if fail_at > 6 {
-        vk::vk_cover!(r.is_ok() && w.data_taken < dlen, "short data write");
-    } else {
-        vk::vk_cover!(r.is_err(), "error path");
-    }
+    // summary for the reachability witnesses of the calling harness
+    (if r.is_ok() && w.data_taken < dlen { 1 } else { 0 }) | (if r.is_ok() && w.data_taken == 2 { 2 } else { 0 }) | (if r.is_err() { 4 } else { 0 })
 }
 
-// Colour pairs and the failing inner call are concrete per harness (symbolic pairs or a symbolic
-// failure point through core::fmt::write do not finish in CBMC, measured); the data bytes and the
-// accepted prefix of the data stay symbolic.  The bytes of every colour code come from
-// AnsiColor::render_fg/render_bg, verified for all 16 colours in C05 (render_buffer_ansi16).
-macro_rules! case {
-    ($name:ident, $fg:expr, $bg:expr, $tr:expr, $fail:expr) => {
-        // the bound covers std's write_all loop (whose trip count CBMC cannot always fold) and the
-        // 12-entry effect table walked by Style::write_to
+// Colours are concrete in every call, data bytes and the accepted prefix symbolic.  (With
+// *symbolic* colours CBMC reports the background code and the reset as "not standard SGR" while
+// every one of the 17 x 17 x 5 concrete cases passes natively (wincon_ansi_native_all_pairs):
+// render_fg/render_bg select among 16 string literals, and reading through that symbolic pointer is
+// over-approximated — the same artefact as with the environment strings of C09; DESIGN 8.16.)
+macro_rules! cases {
+    ($name:ident, [$(($fg:expr, $bg:expr, $fail:expr)),+]) => {
+        // the bound covers the HEAD-byte copy loops, S4's flat passes (10) and Render (12)
         #[cfg_attr(kani, kani::proof, kani::unwind(14))]
         #[cfg_attr(not(kani), test)]
         fn $name() {
-            colored($fg, $bg, $tr, $fail);
+            let mut seen = 0u8;
+            $( seen |= colored($fg, $bg, $fail); )+
+            vk::vk_cover!(seen & 1 != 0 || seen == 4, "a short data write (success cases)");
+            vk::vk_cover!(seen & 2 != 0 || seen == 4, "both data bytes accepted (success cases)");
+            vk::vk_cover!(seen & 4 != 0 || seen & 4 == 0 && seen != 0, "a case ran to its end");
         }
     };
 }
 
-case!(wincon_ansi_fg_only, 1, 16, false, 99);
-case!(wincon_ansi_bg_only, 16, 12, false, 99);
-case!(wincon_ansi_both, 15, 0, false, 99);
-case!(wincon_ansi_none, 16, 16, false, 99);
-case!(wincon_ansi_fail_first, 15, 0, false, 0);
-case!(wincon_ansi_fail_data, 15, 0, false, 2);
-case!(wincon_ansi_fail_reset, 15, 0, false, 3);
+// every foreground colour alone, every background colour alone, no colour
+cases!(wincon_ansi_fg_0_3, [(0, 16, 99), (1, 16, 99), (2, 16, 99), (3, 16, 99)]);
+cases!(wincon_ansi_fg_4_7, [(4, 16, 99), (5, 16, 99), (6, 16, 99), (7, 16, 99)]);
+cases!(wincon_ansi_fg_8_11, [(8, 16, 99), (9, 16, 99), (10, 16, 99), (11, 16, 99)]);
+cases!(wincon_ansi_fg_12_15, [(12, 16, 99), (13, 16, 99), (14, 16, 99), (15, 16, 99)]);
+cases!(wincon_ansi_bg_0_3, [(16, 0, 99), (16, 1, 99), (16, 2, 99), (16, 3, 99)]);
+cases!(wincon_ansi_bg_4_7, [(16, 4, 99), (16, 5, 99), (16, 6, 99), (16, 7, 99)]);
+cases!(wincon_ansi_bg_8_11, [(16, 8, 99), (16, 9, 99), (16, 10, 99), (16, 11, 99)]);
+cases!(wincon_ansi_bg_12_15, [(16, 12, 99), (16, 13, 99), (16, 14, 99), (16, 15, 99)]);
+cases!(wincon_ansi_none, [(16, 16, 99)]);
+// sixteen two-colour pairs (every colour once in each slot)
+cases!(wincon_ansi_both_a, [(0, 3, 99), (1, 10, 99), (2, 1, 99), (3, 8, 99)]);
+cases!(wincon_ansi_both_b, [(4, 15, 99), (5, 6, 99), (6, 13, 99), (7, 4, 99)]);
+cases!(wincon_ansi_both_c, [(8, 11, 99), (9, 2, 99), (10, 9, 99), (11, 0, 99)]);
+cases!(wincon_ansi_both_d, [(12, 7, 99), (13, 14, 99), (14, 5, 99), (15, 12, 99)]);
+// every failure point: two colours (4 inner writes), one colour in either slot (3 inner writes)
+cases!(wincon_ansi_fail_both, [(15, 0, 0), (15, 0, 1), (15, 0, 2), (15, 0, 3)]);
+cases!(wincon_ansi_fail_single, [(9, 16, 0), (9, 16, 1), (9, 16, 2), (16, 4, 0), (16, 4, 1), (16, 4, 2), (16, 16, 0)]);
+
+/// native only (replay build): every pair and failure point, default data — a plain exhaustive
+/// test of the harness logic itself against the real code
+#[cfg(not(kani))]
+#[test]
+fn wincon_ansi_native_all_pairs() {
+    for fail in [0usize, 1, 2, 3, 99] {
+        for fg in 0..=16u8 {
+            for bg in 0..=16u8 {
+                let _ = colored(fg, bg, fail);
+            }
+        }
+    }
+}
